@@ -404,11 +404,12 @@ pub fn sites(tier: Tier) -> Vec<Site> {
         ];
         let prefixes: Vec<Vec<u8>> = vec![vec![], b"a".to_vec(), b"ab".to_vec(), vec![0xe9], b"^E".to_vec(), b"^J".to_vec()];
         // (and one-byte / two-byte units up to 5000 repetitions: a single run of text far longer than any block or buffer)
-        let reps: Vec<usize> = vec![1, 2, 3, 7, 31, 32, 33, 63, 64, 65, 66, 100, 127, 128, 129, 130, 255, 256, 257, 511, 512, 513, 1023, 1024, 1025, 5000];
+        // (... and around 2^15, 2^16, 2^17: counters and offsets of 16 bits wrap in there)
+        let reps: Vec<usize> = vec![1, 2, 3, 7, 31, 32, 33, 63, 64, 65, 66, 100, 127, 128, 129, 130, 255, 256, 257, 511, 512, 513, 1023, 1024, 1025, 5000, 32767, 32768, 32769, 65535, 65536, 65537, 131073];
         let n = (units.len() * prefixes.len() * reps.len()) as u64;
         let tt = t.clone();
         sites.push(Site::new("bytes-long", n,
-            "{nothing, a, ab, one high byte, ^E, ^J} followed by one of 19 units (markers, resets, lone carets, page switches with text, double-byte characters with caret-like / lead-like trail bytes, all ten markers in a row) repeated 1..5000 times",
+            "{nothing, a, ab, one high byte, ^E, ^J} followed by one of 19 units (markers, resets, lone carets, page switches with text, double-byte characters with caret-like / lead-like trail bytes, all ten markers in a row) repeated 1..5000 times and 2^15, 2^16 (+-1), 2^17+1 times",
             move |i, acc| {
                 let u = &units[(i as usize) % units.len()];
                 let p = &prefixes[(i as usize / units.len()) % prefixes.len()];
@@ -560,6 +561,37 @@ pub fn sites(tier: Tier) -> Vec<Site> {
                     }
                 } else {
                     acc.class("caret-text-encode-only");
+                }
+            }));
+    }
+    // LONG strings on the encode side: a unit repeated around every power of two up to 2^17 (page switches, characters
+    // of no page, escaped carets, double-byte characters - "any number" of each)
+    {
+        let units: Vec<String> = ["a", "\u{e9}", "\u{11b}", "\u{e9}\u{11b}", "\u{30a2}", "\u{448}\u{30a2}", "\u{1f600}", "\u{1f600}\u{e9}", "^", "^^", "a^8", "\u{4e2d}^L", "\u{d55c}\u{4e2d}\u{30a2}"].iter().map(|s| s.to_string()).collect();
+        let mut reps: Vec<usize> = vec![];
+        for k in [8u32, 12, 15, 16, 17] { for d in [-1i64, 0, 1] { reps.push(((1i64 << k) + d) as usize); } }
+        let heads = ["", "x", "\u{3b1}"];
+        let n = (units.len() * reps.len() * heads.len()) as u64;
+        let tt = t.clone();
+        sites.push(Site::new("strings-long", n,
+            "{nothing, x, a Greek letter} followed by one of 13 units (1-, 2- and 3-page mixes, characters of no page, carets, double-byte characters of three pages in a row) repeated 2^k-1, 2^k, 2^k+1 times for k in {8, 12, 15, 16, 17}: encode, decode, compare with the text (characters of no page as '?')",
+            move |i, acc| {
+                let mut j = i as usize;
+                let h = heads[j % heads.len()]; j /= heads.len();
+                let r = reps[j % reps.len()]; j /= reps.len();
+                let u = &units[j % units.len()];
+                let mut s = String::with_capacity(h.len() + u.len() * r);
+                s.push_str(h);
+                for _ in 0..r { s.push_str(u); }
+                if u.contains('^') {
+                    // (carets: the decoder-side reading of the encoder's bytes is C12's business; here only totality and the reference decoder)
+                    acc.eval();
+                    match guard(|| to_lossy_bytes(&s).to_vec()) {
+                        Ok(b) => judge_bytes(&tt, &b, i, "strings-long", acc),
+                        Err(p) => acc.violate(i, "C10|encode|panic".into(), format!("{} x {r}: {p}", u.escape_unicode()), json!({"site": "strings-long", "index": i})),
+                    }
+                } else {
+                    roundtrip_case(&tt, &s, i, "strings-long", "L", acc);
                 }
             }));
     }
